@@ -457,7 +457,13 @@ SCENARIOS = {"tee": (tee_scenario, "TeeObs"), "lru": (lru_scenario, "LruObs"), "
 def _run(args):
     kind, seed = args
     try:
-        return SCENARIOS[kind][0](seed)
+        before = len(tm.LIB_ASYNCIO_CALLS)
+        tr = SCENARIOS[kind][0](seed)
+        if len(tm.LIB_ASYNCIO_CALLS) != before:
+            # the library itself reached for asyncio (a loop, a task, a future, a sleep): under this loop it works,
+            # under any other it would not -- an event none of the observation specs has an action for
+            tr["ev"].append({"e": "library-uses-asyncio", "what": tm.LIB_ASYNCIO_CALLS[before:][:3]})
+        return tr
     except Exception as e:  # noqa: BLE001 - the scenario itself must never fail
         return {"cfg": {}, "ev": [], "seed": seed, "kind": kind, "crash": repr(e)}
 
